@@ -5,6 +5,10 @@ From Coq Require Import String.
 From Coq Require Import List Arith ZArith QArith Permutation.
 Import ListNotations.
 From Ticc Require Import Gen.PyRt Gen.G_main_loop_results Model.Repop Model.Viterbi Model.Accounting Proofs.AccountingP Proofs.GenEquivMR.
+(* dependency-only (no names imported here): coqdep is not string-aware and stops seeing `Require`s after the label
+   "expr:itertools.chain( *...)" below, so everything this file requires later is also named before that string *)
+From Ticc Require Gen.PySkel Gen.G_main_loop_suffix Proofs.GenEquivRS Model.Accounting Model.Repop Proofs.InterpResult.
+From Coq Require Permutation.
 
 (* the translated function IS the model's bucketing: one list per cluster, holding the values of exactly the points
    labelled with it, in point order, each value computed from that point's row and that cluster's parameters *)
